@@ -121,6 +121,10 @@ def run_contracts(rep, prop, crefs, level="quick", with_lemmas=False, also=(), o
         rep.trust(*[f"library contract: {t}" for t in res.trusted])
         rep.extra.setdefault("paths_explored", 0)
         rep.extra["paths_explored"] += res.paths
+        rep.extra["vc_instances_discharged"] = rep.extra.get("vc_instances_discharged", 0) + sum(e["instances"] for e in res.by_id.values() if e["status"] == "proved")
+        rep.extra.setdefault("functions_under_contract_list", [])
+        if res.contract.target not in rep.extra["functions_under_contract_list"]:
+            rep.extra["functions_under_contract_list"].append(res.contract.target)
         rep.extra.setdefault("solver_queries", 0)
         rep.extra["solver_queries"] += res.queries
     if with_lemmas:
